@@ -67,21 +67,34 @@ ShapeCols(sh) ==
     [] sh = "T3" -> <<ColR("c1", "Int32", TRUE), ColR("V", "Boolean", FALSE)>>
     [] sh = "V1" -> <<ColR("column1", "Int64", TRUE), ColR("column2", "Utf8", FALSE)>>
     [] sh = "V2" -> <<ColR("column1", "Int64", TRUE)>>
+    [] sh = "A1" -> <<ColR("c1", "Int64", FALSE), ColR("c2", "Utf8", FALSE)>>      \* registered through the Rust API
 ShapeRows(sh) ==
   CASE sh = "V1" -> << <<I(1), S(1)>>, <<I(2), Null>> >>
     [] sh = "V2" -> << <<I(3)>> >>
+    [] sh = "A1" -> << <<I(1), S(1)>> >>
     [] OTHER -> <<>>
 
 \* queries over a source whose first column is an integer:
 \*   star: SELECT * FROM src     pos: SELECT f FROM src WHERE f > 0     expr: SELECT f + 1 AS d FROM src
-QCols(q, cols) ==
+\*   cast: SELECT CAST(f AS BIGINT) AS k, f AS "F2" FROM src        (aliases, one of them case-sensitive, and a cast)
+\*   ren:  the object declares its own column list:  CREATE VIEW v (x) AS SELECT f FROM src   (column renamed)
+\*                                                   CREATE TABLE t(x BIGINT) AS SELECT f FROM src (renamed and cast)
+QCols(q, cols, isview) ==
   CASE q = "star" -> cols
     [] q = "pos" -> <<cols[1]>>
     [] q = "expr" -> <<ColR("d", "Int64", cols[1].nn)>>
+    [] q = "cast" -> <<ColR("k", "Int64", cols[1].nn), ColR("F2", cols[1].t, cols[1].nn)>>
+    [] q = "ren" -> <<ColR("x", IF isview THEN cols[1].t ELSE "Int64", cols[1].nn)>>
+    [] q = "last" -> <<cols[Len(cols)]>>
+    [] OTHER -> cols
 QRows(q, rows) ==
   CASE q = "star" -> rows
     [] q = "pos" -> LET sel == SelectSeq(rows, LAMBDA r : r[1].k = "i" /\ r[1].v > 0) IN [i \in 1..Len(sel) |-> <<sel[i][1]>>]
     [] q = "expr" -> [i \in 1..Len(rows) |-> <<IF rows[i][1].k = "i" THEN I(rows[i][1].v + 1) ELSE Null>>]
+    [] q = "cast" -> [i \in 1..Len(rows) |-> <<rows[i][1], rows[i][1]>>]
+    [] q = "ren" -> [i \in 1..Len(rows) |-> <<rows[i][1]>>]
+    [] q = "last" -> [i \in 1..Len(rows) |-> <<rows[i][Len(rows[i])]>>]
+    [] OTHER -> rows
 
 (* ---------------- state ---------------- *)
 VARIABLES seed0, cur,
@@ -93,8 +106,9 @@ vars == <<seed0, cur, cats, schs, objs, hist>>
 
 \* object: c, s, n; ty "table"|"view"; cols; rows (tables); unk (table content unknown: copied from an
 \* unspecified view); q, src (views: query and the id of the source object); id = number of the creating statement
-Obj(c, s, n, ty, cols, rows, unk, q, src, id) ==
-  [c |-> c, s |-> s, n |-> n, ty |-> ty, cols |-> cols, rows |-> rows, unk |-> unk, q |-> q, src |-> src, id |-> id]
+Obj(c, s, n, ty, cols, rows, unk, q, src, id, api) ==
+  [c |-> c, s |-> s, n |-> n, ty |-> ty, cols |-> cols, rows |-> rows, unk |-> unk, q |-> q, src |-> src, id |-> id,
+   api |-> api]       \* api: registered through SessionContext::register_table (a view then has no definition text)
 
 HasCat(c) == \E i \in 1..Len(cats) : cats[i] = c
 HasSch(c, s) == \E i \in 1..Len(schs) : schs[i] = <<c, s>>
@@ -114,7 +128,7 @@ RowsOf(o) ==
 (* ---------------- the information schema of a state ---------------- *)
 IsTables(os) == [i \in 1..Len(os) |-> <<os[i].c, os[i].s, os[i].n, IF os[i].ty = "table" THEN "BASE TABLE" ELSE "VIEW">>]
 IsColumns(os) == [i \in 1..Len(os) |-> [c |-> os[i].c, s |-> os[i].s, n |-> os[i].n, cols |-> os[i].cols]]
-IsViews(os) == LET vs == SelectSeq(os, LAMBDA o : o.ty = "view") IN
+IsViews(os) == LET vs == SelectSeq(os, LAMBDA o : o.ty = "view" /\ ~o.api) IN
                [i \in 1..Len(vs) |-> [c |-> vs[i].c, s |-> vs[i].s, n |-> vs[i].n, id |-> vs[i].id]]
 IsSchemata(ss) == ss
 
@@ -126,7 +140,7 @@ NoRef == Ref(NoId, NoId, NoId)
 
 CatPool == <<"datafusion", "datafusion", "datafusion", "datafusion", "datafusion", "c2">>
 SchPool == <<"public", "public", "public", "s1", "s1", "S1">>
-NamePool == <<"a", "a", "a", "ab", "ab", "ab", "Ab", "Ab", "AB">>
+NamePool == <<"a", "a", "a", "ab", "ab", "ab", "Ab", "Ab", "AB", "a.b">>     \* "a.b": one quoted identifier containing a dot
 
 \* a reference to the triple <<c, s, n>> in one of the qualifications that denote it
 RefTo(t, sd) ==
@@ -146,6 +160,12 @@ GenRef(pe, sd) ==
                    ELSE <<PickSeq(CatPool, Mix(sd, 4)), PickSeq(SchPool, Mix(sd, 5))>> IN
          RefTo(<<cs[1], cs[2], PickSeq(NamePool, Mix(sd, 6))>>, Mix(sd, 3))
 
+\* for the API readers: now and then a schema / catalog of the pools that may not exist (the call must fail)
+ApiRef(pe, sd) ==
+  IF Chance(30, Mix(sd, 21))
+    THEN RefTo(<<PickSeq(CatPool, Mix(sd, 22)), PickSeq(<<"s1", "S1", "s1", "public">>, Mix(sd, 23)), PickSeq(NamePool, Mix(sd, 24))>>, Mix(sd, 25))
+    ELSE GenRef(pe, sd)
+
 \* a row for INSERT matching the columns (the first column is always a non-NULL integer)
 GenVal(col, first, sd) ==
   IF first THEN PickSeq(<<I(0 - 1), I(0), I(1), I(2)>>, sd)
@@ -160,8 +180,8 @@ LiveViews == SelectSeq(objs, LAMBDA o : o.ty = "view" /\ ObjById(o.src) # 0)
 
 GenStmtBase(sd) ==
   LET c == IF Len(objs) = 0 /\ Chance(80, Mix(sd, 9))       \* nothing to refer to yet: mostly create something
-             THEN PickSeq(<<3, 16, 25, 26, 27, 28, 29, 30, 90>>, Mix(sd, 1))
-             ELSE Rnd(Mix(sd, 1), 100)
+             THEN PickSeq(<<3, 16, 25, 26, 27, 28, 29, 30, 84, 101>>, Mix(sd, 1))
+             ELSE Rnd(Mix(sd, 1), 124)
       fl1 == Chance(40, Mix(sd, 2))
       fl2 == Chance(35, Mix(sd, 3))
       sref == LET s == PickSeq(<<"s1", "s1", "s1", "S1", "S1", "public">>, Mix(sd, 4))
@@ -177,8 +197,9 @@ GenStmtBase(sd) ==
              orr == Chance(30, Mix(sd, 3)) IN
          IF how < 5 \/ (Len(objs) = 0 /\ how >= 7) THEN Stmt("create_table", GenRef(35, Mix(sd, 10)), NoRef, "", PickSeq(<<"T1", "T2", "T3">>, Mix(sd, 11)), ine, orr, FALSE, FALSE, <<>>)
          ELSE IF how < 7 THEN Stmt("create_table", GenRef(35, Mix(sd, 10)), NoRef, "", PickSeq(<<"V1", "V2">>, Mix(sd, 11)), ine, orr, FALSE, FALSE, <<>>)
-         ELSE Stmt("create_table", GenRef(35, Mix(sd, 10)), GenRef(85, Mix(sd, 12)), PickSeq(<<"star", "pos", "expr">>, Mix(sd, 11)), "", ine, orr, FALSE, FALSE, <<>>)
-    [] c \in 40..54 -> Stmt("create_view", GenRef(35, Mix(sd, 10)), GenRef(85, Mix(sd, 12)), PickSeq(<<"star", "pos", "expr">>, Mix(sd, 11)), "",
+         ELSE Stmt("create_table", GenRef(35, Mix(sd, 10)), GenRef(85, Mix(sd, 12)),
+                   PickSeq(<<"star", "pos", "expr", "cast", "ren", "ren", "bad2">>, Mix(sd, 11)), "", ine, orr, FALSE, FALSE, <<>>)
+    [] c \in 40..54 -> Stmt("create_view", GenRef(35, Mix(sd, 10)), GenRef(85, Mix(sd, 12)), PickSeq(<<"star", "pos", "expr", "cast", "ren">>, Mix(sd, 11)), "",
                             FALSE, Chance(40, Mix(sd, 3)), FALSE, FALSE, <<>>)
     [] c \in 55..62 -> Stmt("drop_table", GenRef(75, Mix(sd, 10)), NoRef, "", "", FALSE, FALSE, fl1, FALSE, <<>>)
     [] c \in 63..69 -> Stmt("drop_view", GenRef(75, Mix(sd, 10)), NoRef, "", "", FALSE, FALSE, fl1, FALSE, <<>>)
@@ -187,7 +208,23 @@ GenStmtBase(sd) ==
              i == ObjAt(Resolve(r)) IN
          Stmt("insert", r, NoRef, "", "", FALSE, FALSE, FALSE, FALSE,
               IF i # 0 THEN GenRowFor(objs[i].cols, Mix(sd, 13)) ELSE <<I(1)>>)
-    [] OTHER -> Stmt("select", GenRef(80, Mix(sd, 10)), NoRef, "", "", FALSE, FALSE, FALSE, FALSE, <<>>)
+    \* SELECT * / SELECT f .. WHERE f > 0 / SELECT <last column> / SELECT * .. LIMIT 1  (projection, filter and limit reach the
+    \* provider of a view separately)
+    [] c \in 83..86 -> Stmt("select", GenRef(80, Mix(sd, 10)), NoRef, PickSeq(<<"star", "star", "pos", "last", "lim">>, Mix(sd, 11)), "",
+                            FALSE, FALSE, FALSE, FALSE, <<>>)
+    \* statements that must be refused: temporary objects, duplicate column names in the defining query
+    [] c \in 119..123 -> Stmt(PickSeq(<<"create_table", "create_view">>, Mix(sd, 13)), GenRef(35, Mix(sd, 10)), GenRef(95, Mix(sd, 12)),
+                       PickSeq(<<"dup", "temp">>, Mix(sd, 11)), "", FALSE, Chance(50, Mix(sd, 3)), FALSE, FALSE, <<>>)
+    \* other readers of the same information
+    [] c \in {89, 90, 113, 114, 115} -> Stmt("describe", GenRef(80, Mix(sd, 10)), NoRef, "", "", FALSE, FALSE, FALSE, FALSE, <<>>)
+    [] c \in {91, 92, 110, 111, 112} -> Stmt("show_columns", GenRef(80, Mix(sd, 10)), NoRef, "", "", FALSE, FALSE, FALSE, FALSE, <<>>)
+    [] c \in {93, 116} -> Stmt("show_tables", NoRef, NoRef, "", "", FALSE, FALSE, FALSE, FALSE, <<>>)
+    \* the Rust API of SessionContext, interleaved with the SQL statements
+    [] c \in {94, 95, 100, 101, 102, 103, 104, 105} -> Stmt("api_register_table", GenRef(30, Mix(sd, 10)), NoRef, "", "A1", FALSE, FALSE, FALSE, FALSE, <<>>)
+    [] c \in {96, 106, 107, 108, 109} -> Stmt("api_register_view", GenRef(30, Mix(sd, 10)), GenRef(90, Mix(sd, 12)), PickSeq(<<"star", "pos", "cast">>, Mix(sd, 11)), "",
+                      FALSE, FALSE, FALSE, FALSE, <<>>)
+    [] c \in {87, 97, 98, 117, 118} -> Stmt("api_deregister", ApiRef(75, Mix(sd, 10)), NoRef, "", "", FALSE, FALSE, FALSE, FALSE, <<>>)
+    [] OTHER -> Stmt("api_exists", ApiRef(60, Mix(sd, 10)), NoRef, "", "", FALSE, FALSE, FALSE, FALSE, <<>>)
 
 \* when a live view exists, a good share of the statements change its source table or read the view
 \* (the view must show the CURRENT rows of its source)
@@ -195,13 +232,34 @@ GenStmt(sd) ==
   IF Len(objs) > 0 /\ Len(LiveViews) = 0 /\ Chance(30, Mix(sd, 55))
     THEN Stmt("create_view", GenRef(20, Mix(sd, 56)), GenRef(100, Mix(sd, 57)), PickSeq(<<"star", "star", "pos", "expr">>, Mix(sd, 58)), "",
               FALSE, Chance(40, Mix(sd, 59)), FALSE, FALSE, <<>>)
-  ELSE IF Len(LiveViews) > 0 /\ Chance(60, Mix(sd, 50))
+  ELSE IF HasCat("c2") /\ ~(\E i \in 1..Len(schs) : schs[i][1] = "c2") /\ Chance(40, Mix(sd, 63))
+    \* the second catalog exists but is empty: give it a schema ...
+    THEN Stmt("create_schema", Ref(GenId("c2", Mix(sd, 64)), GenId(PickSeq(<<"s1", "S1", "public">>, Mix(sd, 65)), Mix(sd, 66)), NoId), NoRef, "", "",
+              Chance(30, Mix(sd, 67)), FALSE, FALSE, FALSE, <<>>)
+  ELSE IF (\E i \in 1..Len(schs) : schs[i][1] = "c2") /\ ~(\E i \in 1..Len(objs) : objs[i].c = "c2") /\ Chance(40, Mix(sd, 63))
+    \* ... and objects (catalog-qualified creation in a non-default catalog)
+    THEN LET cs == PickSeq(SelectSeq(schs, LAMBDA x : x[1] = "c2"), Mix(sd, 64)) IN
+         Stmt("create_table", RefTo(<<cs[1], cs[2], PickSeq(NamePool, Mix(sd, 65))>>, Mix(sd, 66)), NoRef, "",
+              PickSeq(<<"T1", "T2", "T3", "V1", "V2">>, Mix(sd, 67)), FALSE, FALSE, FALSE, FALSE, <<>>)
+  ELSE IF (\E i \in 1..Len(objs) : objs[i].s # DefSch) /\ Chance(7, Mix(sd, 68))
+    \* a schema with objects in it is dropped (CASCADE mostly; without it the statement must fail)
+    THEN LET o == PickSeq(SelectSeq(objs, LAMBDA x : x.s # DefSch), Mix(sd, 69)) IN
+         Stmt("drop_schema", Ref(IF o.c = DefCat /\ Chance(60, Mix(sd, 70)) THEN NoId ELSE GenId(o.c, Mix(sd, 71)), GenId(o.s, Mix(sd, 72)), NoId),
+              NoRef, "", "", FALSE, FALSE, Chance(40, Mix(sd, 73)), Chance(75, Mix(sd, 74)), <<>>)
+  ELSE IF Len(LiveViews) > 0 /\ Chance(45, Mix(sd, 50))
     THEN LET v == PickSeq(LiveViews, Mix(sd, 51))
              b == objs[ObjById(v.src)] IN
-         IF b.ty = "table" /\ Chance(55, Mix(sd, 52))
+         IF b.ty = "table" /\ Chance(15, Mix(sd, 60))
+           \* replace / drop the table a view reads: the view keeps existing with its columns
+           THEN (IF Chance(70, Mix(sd, 61))
+                   THEN Stmt("create_table", RefTo(<<b.c, b.s, b.n>>, Mix(sd, 53)), NoRef, "", PickSeq(<<"T1", "T2", "T3", "V1">>, Mix(sd, 62)),
+                             FALSE, TRUE, FALSE, FALSE, <<>>)
+                   ELSE Stmt("drop_table", RefTo(<<b.c, b.s, b.n>>, Mix(sd, 53)), NoRef, "", "", FALSE, FALSE, FALSE, FALSE, <<>>))
+         ELSE IF b.ty = "table" /\ Chance(55, Mix(sd, 52))
            THEN Stmt("insert", RefTo(<<b.c, b.s, b.n>>, Mix(sd, 53)), NoRef, "", "", FALSE, FALSE, FALSE, FALSE,
                      GenRowFor(b.cols, Mix(sd, 54)))
-           ELSE Stmt("select", RefTo(<<v.c, v.s, v.n>>, Mix(sd, 53)), NoRef, "", "", FALSE, FALSE, FALSE, FALSE, <<>>)
+           ELSE Stmt("select", RefTo(<<v.c, v.s, v.n>>, Mix(sd, 53)), NoRef, PickSeq(<<"star", "star", "pos", "last", "lim">>, Mix(sd, 55)), "",
+                     FALSE, FALSE, FALSE, FALSE, <<>>)
     ELSE GenStmtBase(sd)
 
 (* ---------------- meaning of a statement ---------------- *)
@@ -233,21 +291,21 @@ Apply(st, id) ==
          ELSE Done(cats, SelectSeq(schs, LAMBDA x : x # <<t[1], t[2]>>),
                    SelectSeq(objs, LAMBDA o : ~(o.c = t[1] /\ o.s = t[2])))
     [] st.k = "create_table" ->
-         IF (st.src # NoRef /\ j = 0) \/ ~schemaOK THEN Fail
+         IF (st.src # NoRef /\ j = 0) \/ ~schemaOK \/ st.q \in {"bad2", "dup", "temp"} THEN Fail      \* bad2: 2 columns declared, query has 1
          ELSE IF i # 0 /\ st.ine /\ st.orr THEN Fail
          ELSE IF i # 0 /\ st.ine THEN Noop
          ELSE IF i # 0 /\ ~st.orr THEN Fail
          ELSE IF st.src = NoRef
-           THEN Done(cats, schs, replace(Obj(t[1], t[2], t[3], "table", ShapeCols(st.shape), ShapeRows(st.shape), FALSE, "", 0, id)))
+           THEN Done(cats, schs, replace(Obj(t[1], t[2], t[3], "table", ShapeCols(st.shape), ShapeRows(st.shape), FALSE, "", 0, id, FALSE)))
            ELSE LET r == RowsOf(objs[j]) IN
-                Done(cats, schs, replace(Obj(t[1], t[2], t[3], "table", QCols(st.q, objs[j].cols),
-                                             IF r.u THEN <<>> ELSE QRows(st.q, r.rows), r.u, "", 0, id)))
+                Done(cats, schs, replace(Obj(t[1], t[2], t[3], "table", QCols(st.q, objs[j].cols, FALSE),
+                                             IF r.u THEN <<>> ELSE QRows(st.q, r.rows), r.u, "", 0, id, FALSE)))
     [] st.k = "create_view" ->
-         IF j = 0 \/ ~schemaOK THEN Fail
+         IF j = 0 \/ ~schemaOK \/ st.q \in {"dup", "temp"} THEN Fail
          ELSE IF i # 0 /\ ~st.orr THEN Fail
          ELSE LET r == RowsOf(objs[j]) IN
-              Done(cats, schs, replace(Obj(t[1], t[2], t[3], "view", QCols(st.q, objs[j].cols),
-                                           IF MUT = "staleview" /\ ~r.u THEN QRows(st.q, r.rows) ELSE <<>>, FALSE, st.q, objs[j].id, id)))
+              Done(cats, schs, replace(Obj(t[1], t[2], t[3], "view", QCols(st.q, objs[j].cols, TRUE),
+                                           IF MUT = "staleview" /\ ~r.u THEN QRows(st.q, r.rows) ELSE <<>>, FALSE, st.q, objs[j].id, id, FALSE)))
     [] st.k \in {"drop_table", "drop_view"} ->
          LET want == IF st.k = "drop_table" THEN "table" ELSE "view" IN
          IF i # 0 /\ objs[i].ty = want THEN Done(cats, schs, Without(objs, i))
@@ -257,7 +315,25 @@ Apply(st, id) ==
          ELSE Out(TRUE, 1, <<>>, FALSE, <<>>, cats, schs, [objs EXCEPT ![i].rows = Append(@, st.row)])
     [] st.k = "select" ->
          IF i = 0 THEN Fail
-         ELSE LET r == RowsOf(objs[i]) IN Out(TRUE, 0, r.rows, r.u, objs[i].cols, cats, schs, objs)
+         ELSE LET r == RowsOf(objs[i])
+                  qq == IF st.q \in {"pos", "last"} THEN st.q ELSE "star" IN      \* "lim": any one row of the object (checked by the driver)
+              Out(TRUE, 0, IF r.u THEN <<>> ELSE QRows(qq, r.rows), r.u, QCols(qq, objs[i].cols, TRUE), cats, schs, objs)
+    [] st.k \in {"describe", "show_columns"} ->
+         IF i = 0 THEN Fail ELSE Out(TRUE, 0, <<>>, FALSE, objs[i].cols, cats, schs, objs)
+    [] st.k = "show_tables" -> Noop
+    \* SessionContext::register_table: no replace, no IF NOT EXISTS
+    [] st.k = "api_register_table" ->
+         IF ~schemaOK \/ i # 0 THEN Fail
+         ELSE Done(cats, schs, Append(objs, Obj(t[1], t[2], t[3], "table", ShapeCols(st.shape), ShapeRows(st.shape), FALSE, "", 0, id, TRUE)))
+    [] st.k = "api_register_view" ->
+         IF j = 0 \/ ~schemaOK \/ i # 0 THEN Fail
+         ELSE Done(cats, schs, Append(objs, Obj(t[1], t[2], t[3], "view", QCols(st.q, objs[j].cols, TRUE), <<>>, FALSE, st.q, objs[j].id, id, TRUE)))
+    \* SessionContext::deregister_table removes a table or a view alike and reports whether there was one
+    [] st.k = "api_deregister" ->
+         IF ~schemaOK THEN Fail
+         ELSE Out(TRUE, IF i # 0 THEN 1 ELSE 0, <<>>, FALSE, <<>>, cats, schs, Without(objs, i))
+    [] st.k = "api_exists" ->
+         IF ~schemaOK THEN Fail ELSE Out(TRUE, IF i # 0 THEN 1 ELSE 0, <<>>, FALSE, <<>>, cats, schs, objs)
 
 (* ---------------- the state machine ---------------- *)
 Init == /\ seed0 \in RandomSubset(NH, 1..(M - 1))
@@ -275,7 +351,7 @@ Step(b) ==
       st == GenStmt(s1)
       r == Apply(st, Len(hist) + 1) IN
   /\ cats' = r.cats /\ schs' = r.schs /\ objs' = r.objs
-  /\ hist' = Append(hist, [st |-> st, fcol |-> IF st.src = NoRef THEN "" ELSE FirstCol(st.src),
+  /\ hist' = Append(hist, [st |-> st, tgt |-> Resolve(st.ref), fcol |-> IF st.src = NoRef THEN "" ELSE FirstCol(st.src),
                            ok |-> r.ok, count |-> r.count, rows |-> r.rows, unspec |-> r.unspec, cols |-> r.cols,
                            tables |-> IsTables(r.objs), columns |-> IsColumns(r.objs), views |-> IsViews(r.objs),
                            schemata |-> IsSchemata(r.schs)])
